@@ -193,6 +193,38 @@ func runC13(w *fw.W) {
 		chains = uniq
 	}
 
+	// an intermediate result kept in a variable and continued twice: each continuation works on what the kept
+	// value holds, and the kept value still holds it afterwards
+	if w.Take() {
+		if ip == nil {
+			ip = interp.New()
+		}
+		w.Begin("kept intermediate results continued twice", nil)
+		var vs violSet
+		n := 0
+		steps := []string{".+(5)", ".*(2)", ".//(3)", ".{|n| n + 1}", ".-(4)", ".^incf"}
+		fails := []string{".//(0)", `.+("s")`, ".nopeprop"}
+		for _, s1 := range steps {
+			for _, s2 := range append(append([]string{}, steps...), fails...) {
+				for _, s3 := range append(append([]string{}, steps...), fails[:1]...) {
+					plain := fmt.Sprintf("incf := {|n| n + 1}\nub := 20%s\nua := 0.try.{|z| ub%s}.A\nuc := 0.try.{|z| ub%s}.A\n[ub, ua[0], ua[1] != nil, uc[0], uc[1] != nil, ub]", s1, s2, s3)
+					wrapped := fmt.Sprintf("incf := {|n| n + 1}\nbase := 20.try%s\na := base%s\nc := base%s\n[base.val, a.val, a.err?, c.val, c.err?, base.val]", s1, s2, s3)
+					po := ip.Run(plain, interp.Options{})
+					wo := ip.Run(wrapped, interp.Options{})
+					n++
+					if !po.OK() {
+						panic("C13 harness: plain branching program does not evaluate: " + plain + " → " + po.Outcome())
+					}
+					if !wo.OK() || wo.Inspect != po.Inspect {
+						vs.add("C13|kept-intermediate|continued-twice", fmt.Sprintf("wrapped:\n%s\n→ %s\nplain:\n%s\n→ %s", wrapped, wo.Outcome(), plain, po.Outcome()), wrapped)
+					}
+				}
+			}
+		}
+		r := fw.Result{Verdict: fw.Held, Evals: 2 * n, Counters: map[string]int{"branching_programs": n, "chains": n}, DKeys: []string{"kept-intermediate"}}
+		vs.finish(&r)
+		w.End(r)
+	}
 	chunk := 40
 	for start := 0; start < len(chains); start += chunk {
 		if !w.Take() {
